@@ -1,4 +1,7 @@
 #include "cstring_model.h"
+#ifndef VM_MEMSET_WORDS
+#define VM_MEMSET_WORDS 1
+#endif
 
 size_t vm_strlen(const char *s) {
   size_t i = 0;
@@ -34,6 +37,16 @@ void *vm_memcpy(void *d, const void *s, size_t n) {
 
 void *vm_memset(void *d, int c, size_t n) {
   size_t i;
+#ifndef VERIF_NATIVE
+  /* zero-filling a 16/24-byte record (p_malloc0 of the list/section/parameter/file structs): word
+   * stores, so that CBMC sees pointer fields set to NULL instead of eight byte updates per pointer */
+  if (c == 0 && (n == 16 || n == 24) && VM_MEMSET_WORDS) {
+    ((unsigned long long *) d)[0] = 0ull;
+    ((unsigned long long *) d)[1] = 0ull;
+    if (n == 24) ((unsigned long long *) d)[2] = 0ull;
+    return d;
+  }
+#endif
   for (i = 0; i < n; i++) ((unsigned char *) d)[i] = (unsigned char) c;
   return d;
 }
